@@ -173,6 +173,23 @@ func runC03(c *Ctx) error {
 			}
 		}
 		cases = append(cases, chainCase{name: "work lattice across 2^31 .. 2^192", ops: lops})
+		// a submission whose write does not happen (the process-level view of a failed or killed write), followed IN THE SAME
+		// PROCESS by its child: the child's parent is not stored, so it starts at height 1 with only its own work — whatever
+		// the service remembers about the header it failed to store; then the parent is redelivered, then a restart
+		for v, at := range []int{0, 1, 0} {
+			ph := []Node{{Parent: -1, Bits: bitsSmall[1]}, {Parent: 0, Bits: bitsSmall[1]}, {Parent: 1, Bits: bitsSmall[1]}, {Parent: 2, Bits: bitsSmall[1]},
+				{Parent: -1, Bits: bitsSmall[1]}, {Parent: 4, Bits: bitsBig}}
+			buildTree(ph, 5300+uint32(v)+uint32(c.Seed)*11, rng, false)
+			hx := func(i int) string { return ph[i].Hdr.Hex() }
+			var pops []string
+			switch v {
+			case 0, 1: // tip extension fails before its insert; its child and grandchild follow
+				pops = []string{"reset", "forbid", "add " + hx(0), fmt.Sprintf("crash %d %s", at, hx(1)), "add " + hx(2), "add " + hx(3), "dump", "add " + hx(1), "restart", "dump"}
+			default: // a reorganising header fails before its first write; its would-be sibling chain goes on
+				pops = []string{"reset", "forbid", "add " + hx(0), "add " + hx(1), "add " + hx(4), fmt.Sprintf("crash 0 %s", hx(5)), "add " + hx(2), "dump", "add " + hx(5), "restart", "dump"}
+			}
+			cases = append(cases, chainCase{name: fmt.Sprintf("write that does not happen, then the child in the same process #%d", v), ops: pops})
+		}
 	}
 	if c.Replay == "" {
 		lens := []int{1103}
@@ -228,6 +245,14 @@ func runC03(c *Ctx) error {
 					sawExtreme = true
 					c.R.Count("extreme-field-header", 1)
 				}
+			case "crash":
+				// whatever part of the submission happened is in the table now
+				after, err := ci.Dump()
+				if err != nil {
+					return err
+				}
+				o.step(c, ci, cs.name, cs.ops[:k+1], nil, "", before, after)
+				before = after
 			case "restart":
 				sawRestart = true
 				after, err := ci.Dump()
